@@ -194,8 +194,20 @@ def pairs(max_size=3):
     return st.one_of(plain, plain, plain, triple, boolish)
 
 
+def spread():
+    """several values for ONE attribute spread over separate positional dicts (a dict cannot repeat a key): two or
+    three plain values, then an HTML() one, optionally more afterwards"""
+    return st.builds(
+        lambda fam, plains, hv, tail: [[[fam[i % len(fam)], v]] for i, v in enumerate(plains)] + [[[fam[0], {"html": hv}]]] + [[[fam[-1], v]] for v in tail],
+        st.sampled_from([["x", "x_"], ["class", "class_"], ["data_a", "data-a"], ["title"], ["style"]]),
+        st.lists(st.one_of(gen.any_text(), gen.hot_text(2), st.sampled_from([3, True])), min_size=2, max_size=3),
+        st.sampled_from(BENIGN_HTML),
+        st.lists(gen.any_text(), max_size=1),
+    )
+
+
 def steps():
-    upd = st.tuples(st.just("update"), st.lists(pairs(), max_size=2), pairs(2)).map(list)
+    upd = st.tuples(st.just("update"), st.one_of(st.lists(pairs(), max_size=2), st.lists(pairs(), max_size=2), spread()), pairs(2)).map(list)
     setitem = st.tuples(st.just("set"), raw_names(), values()).map(list)
     addc = st.tuples(st.just("add_class"), str_values(), st.booleans()).map(list)
     adds = st.tuples(st.just("add_style"), str_values(), st.booleans()).map(list)
@@ -205,7 +217,7 @@ def steps():
 def case_strategy():
     return st.fixed_dictionaries(
         {
-            "ctor": st.tuples(st.lists(pairs(), max_size=3), pairs(3)).map(list),
+            "ctor": st.tuples(st.one_of(st.lists(pairs(), max_size=3), st.lists(pairs(), max_size=3), spread()), pairs(3)).map(list),
             "steps": steps(),
             "void": st.booleans(),
             # the element the attributes sit on: escaping is a property of the attribute writer, whatever the element
@@ -418,6 +430,7 @@ def body_history(case, note):
         "on-raw-text-element" if name.lower() in ("script", "style") else "",
         "on-other-element" if case.get("elem") else "",
         "str-subclass-value" if '"strsub"' in _json.dumps(case) else "",
+        "two-plain-values-then-html-for-one-name" if any(len(parts) >= 3 and parts[0][0] == "plain" and parts[1][0] == "plain" and any(k == "html" for k, _ in parts[2:]) and META & set(parts[0][1]) for parts in model.values()) else "",
     )
 
 
@@ -448,7 +461,7 @@ CLAUSES = [
         quick=1500,
         thorough=20000,
         shards_quick=4,
-        required=("merged-plain-x-html-with-metachar", "op:update", "op:set", "op:add_class", "op:add_style", "benign-readback", "prior-text-render", "on-raw-text-element", "on-other-element", "str-subclass-value"),
+        required=("merged-plain-x-html-with-metachar", "op:update", "op:set", "op:add_class", "op:add_style", "benign-readback", "prior-text-render", "on-raw-text-element", "on-other-element", "str-subclass-value", "two-plain-values-then-html-for-one-name"),
         rule="a plain part with a metacharacter",
         fuzz=60000,
     ),
